@@ -46,6 +46,10 @@ func (els *EncryptedLeaseSet) DecryptInnerData(authCookie []byte, privateKey int
 		return nil, err
 	}
 
+	if err := validateEphemeralPublicKey(els.encryptedInnerData[:x25519.PublicKeySize]); err != nil {
+		return nil, err
+	}
+
 	derivedKey, err := deriveDecryptionKey(privKey, els.encryptedInnerData[:x25519.PublicKeySize])
 	if err != nil {
 		return nil, err
@@ -88,6 +92,35 @@ func validateEncryptedDataLength(data []byte) error {
 	if len(data) < minSize {
 		return oops.Errorf("encrypted data too short: need at least %d bytes, got %d",
 			minSize, len(data))
+	}
+	return nil
+}
+
+// validateEphemeralPublicKey rejects non-canonical encodings of the ephemeral X25519
+// public key. X25519 ignores bit 255 of the peer's u-coordinate and reduces the rest
+// modulo 2^255-19, and the ephemeral key is not covered by the AEAD tag, so without
+// this check a ciphertext whose first 32 bytes were altered into another encoding of
+// the same point would still decrypt. EncryptInnerLeaseSet2 only ever emits the
+// canonical encoding.
+func validateEphemeralPublicKey(key []byte) error {
+	if len(key) != x25519.PublicKeySize {
+		return oops.Errorf("invalid ephemeral public key length: expected %d, got %d", x25519.PublicKeySize, len(key))
+	}
+	if key[31]&0x80 != 0 {
+		return oops.Errorf("non-canonical ephemeral public key: most significant bit set")
+	}
+	// u >= 2^255-19 (7fff...ffed .. 7fff...ffff) is another encoding of u - (2^255-19)
+	if key[31] == 0x7f && key[0] >= 0xed {
+		allFF := true
+		for _, b := range key[1:31] {
+			if b != 0xff {
+				allFF = false
+				break
+			}
+		}
+		if allFF {
+			return oops.Errorf("non-canonical ephemeral public key: not reduced modulo 2^255-19")
+		}
 	}
 	return nil
 }
